@@ -141,6 +141,16 @@ CHECKS = {
         note="Claims exactness only where the exact image is an integer in range and the reduced affine numerators fit the reps (a conservative "
              "reading of 'intermediate displacement representable').  Layer A for points is C10's fold/gcd model.",
         technique="TLC-emitted affine contracts swept against the real QuantityPoint operations, adjudicated by TLC (BigInt rationals) + failing probes", ref="6/C09"),
+    "C18": dict(
+        text="Labels.tla is the label grammar as TLA+ string operators over the unit types of Units.tla (named / prefixed / scaled / power / "
+             "product with numerator-denominator groups, magnitude labels with BigInt decimal digits and the unsupported-marker rules).  TLC "
+             "emits ~9-15k expressions (all library units x powers incl. negative and fractional, scalings, all 32 prefixes, products, "
+             "quotients, three-factor quotients, derived units with and without own labels, scalings by every integer class up to 2^64-1 and "
+             "beyond, rationals); the compiled types' label bytes, sizeof, strlen, NUL are read out and TLC judges every record by string "
+             "equality and size = length + 1; IToA/UIToA digits against BigInt; streamed quantities (8-bit reps print numbers).",
+        note="Own labels are inputs.  A difference that is only a reordering of product factors is MODEL-DRIFT, not a violation.  CommonUnit "
+             "labels (EQUIV{...}) are not yet in the grammar model.",
+        technique="TLA+ label grammar evaluated by TLC on read-outs of the real labels (trace validation by string equality)", ref="6/C18"),
 }
 
 
